@@ -168,6 +168,12 @@ M("c04.toy.dsa.verify.modq", "C04", DSAPY, "v = (pow(g, u1, p) * pow(y, u2, p) %
 M("c04.toy.dsa.sign.r", "C04", DSAPY, "r = pow(g, k, p) % q  # r = (g**k mod p) mod q", "r = pow(g, k, q) % p", "K-pw|dsa.toy.sign")
 M("c04.twin.toy.ecdsa.verify", "C04", ECCPY, "return (point1 + point2).x % order == rs[0]", "v = (point2 + point1).x % order\n        return v == rs[0]", twin=True)
 
+M("c02.salsa.rot", "C02", "src/Salsa20.c", "        x8  = XOR( x8, ROTL32( x4 +  x0,  9));", "        x8  = XOR( x8, ROTL32( x4 +  x0,  8));", "K-pw|c|salsa.stream")
+M("c02.salsa.carry", "C02", "src/Salsa20.c", "    if (!input[8]) {\n        input[9] = input[9] + 1;", "    if (!input[8]) {\n        input[9] = input[9] + 0;", "K-pw|c|salsa.stream")
+M("c12.scrypt.integerify", "C12", "src/scrypt.c", "        index = LOAD_U32_LITTLE(&x[two_r - 1][0]) & (N - 1);", "        index = LOAD_U32_LITTLE(&x[two_r - 2][0]) & (N - 1);", "K-pw|c|salsa.scrypt")
+M("c12.scrypt.blockmix.shuffle", "C12", "src/scrypt.c", "        y = &out[(i/2) + (i & 1)*r];", "        y = &out[i];", "K-pw|c|salsa.scrypt")
+M("c12.scrypt.p.revert", "C12", "lib/Crypto/Protocol/KDF.py", "    if r < 1 or p < 1:\n        raise ValueError(\"r and p must be positive\")\n", "", "G|scrypt.")
+M("c12.pbkdf1.count.revert", "C12", "lib/Crypto/Protocol/KDF.py", "    if count < 1:\n        raise ValueError(\"The iteration count must be positive\")\n", "", "G|pbkdf1.count")
 SHA2T = "src/hash_SHA2_template.c"
 M("c03.digest.sha256.k63", "C03", SHA2T, "0x84c87814, 0x8cc70208,", "0x84c87814, 0x8cc70209,", "K-kat|c|digest.md")
 M("c03.digest.sha512.sigma", "C03", SHA2T, "#define sigma_1_512(x)    (ROTR64(19,x) ^ ROTR64(61,x) ^ SHR(6,x))", "#define sigma_1_512(x)    (ROTR64(19,x) ^ ROTR64(61,x) ^ SHR(7,x))", "K-kat|c|digest.md")
